@@ -337,6 +337,10 @@ def run(ctx):
         if "C[" in a and not a.endswith("E[]") or re.search(r"C\[[^\]]", a):
             nontrivial += 1
     for t, a in ssa_other:
+        if a.startswith("locinv"):
+            ctx.violation("the parser builds an `E::LocalId` whose expression location differs from its identifier's location (every position-based query and the renamer rely on the two being equal): " + a[7:160],
+                          {"protocol": "ssa", "module": t, "impl": a})
+            break
         if a.startswith("panic") or a.startswith("<"):
             ctx.violation("perform_ssa_analysis_on_module / parser crashed: " + a[:120], {"protocol": "ssa", "module": t, "impl": a})
             break
